@@ -51,8 +51,8 @@ Section Group.
     (key = "name" /\ scalar_with_tag v strTag = true /\ n_value v <> "") \/
     ((key = "interval" \/ key = "query_offset") /\ scalar_with_tag v strTag = true /\ dur_ok (n_value v) = true) \/
     (key = "limit" /\ scalar_with_tag v intTag = true /\ int_ok v = true) \/
-    (key = "labels" /\ n_tag v = mapTag /\ validate_string_map "labels" (mapping_nodes v) 0 (0, 0) = None /\
-     bad_group_label lname_ok lvalue_ok (mapping_nodes v) = None) \/
+    (key = "labels" /\ n_tag v = mapTag /\ validate_string_map "labels" (mapping_nodes (deref v)) 0 (0, 0) = None /\
+     bad_group_label lname_ok lvalue_ok (mapping_nodes (deref v)) = None) \/
     (key = "rules" /\ is_tag (n_tag v) seqTag = true).
 
   Ltac brk H :=
@@ -67,7 +67,7 @@ Section Group.
     group_pair_ok k v /\
     g_error g1 = g_error g /\
     g_name g1 = (if String.eqb (node_value k) "name" then n_value v else g_name g) /\
-    g_labels g1 = (if String.eqb (node_value k) "labels" then Some (nym k v) else g_labels g) /\
+    g_labels g1 = (if String.eqb (node_value k) "labels" then Some (nym k (deref v)) else g_labels g) /\
     g_rules g1 = (if String.eqb (node_value k) "rules" then g_rules g ++ map (PRS lines) (unpack_nodes v) else g_rules g).
   Proof.
     unfold group_entry, group_pair_ok. intros H. cbn [negb] in H.
@@ -78,6 +78,10 @@ Section Group.
              | E : negb _ = false |- _ => apply negb_false_iff in E
              end.
     all: repeat match goal with E : node_value _ = _ |- _ => rewrite E in *; clear E end.
+    all: unfold deref; repeat match goal with E : n_alias _ = _ |- _ => rewrite E end.
+    all: repeat match goal with E : (_ || _)%bool = false |- _ => apply orb_false_iff in E; destruct E end;
+         repeat match goal with E : negb _ = false |- _ => apply negb_false_iff in E end;
+         repeat match goal with E : (_ =? _)%string = true |- _ => apply String.eqb_eq in E end.
     all: cbn [String.eqb Ascii.eqb Bool.eqb g_set_name g_set_labels g_add_rules g_error g_name g_labels g_rules].
     all: (split; [|repeat split; reflexivity]).
     all: first [ solve [left; repeat split; auto; apply String.eqb_neq; assumption]
@@ -112,7 +116,7 @@ Section Group.
     (forall k v, In (k, v) ps -> group_pair_ok k v /\ ~ In (n_value k) sk) /\
     NoDup (map key_text ps) /\
     g_name G = (match find_key "name" ps with Some (_, v) => n_value v | None => g_name g end) /\
-    g_labels G = (match find_key "labels" ps with Some (k, v) => Some (nym k v) | None => g_labels g end) /\
+    g_labels G = (match find_key "labels" ps with Some (k, v) => Some (nym k (deref v)) | None => g_labels g end) /\
     g_rules G = g_rules g ++ (match find_key "rules" ps with Some (_, v) => map (PRS lines) (unpack_nodes v) | None => [] end) /\
     (im = true \/ In "rules" (map key_text ps) \/ In "rules" sk -> In "name" (map key_text ps) \/ In "name" sk).
   Proof.
@@ -220,7 +224,8 @@ Section Group.
   Proof.
     intros Hp g Hge Hrules. pose proof (proj1 Hp) as Hgn.
     unfold g, parse_group in *. clear g.
-    destruct (negb (is_tag (n_tag gn) mapTag)) eqn:Et; [discriminate Hge|]. apply negb_false_iff in Et.
+    destruct (negb (is_tag (n_tag gn) mapTag) || kind_mismatch gn KMapping)%bool eqn:Et; [discriminate Hge|].
+    apply orb_false_iff in Et. destruct Et as [Et _]. apply negb_false_iff in Et.
     destruct (n_kind gn) eqn:K; try (destruct Hgn as [_ X]; rewrite K in X; contradiction).
     - (* sequence: tag !!seq is not accepted *)
       destruct Hgn as [_ X]. rewrite K in X. destruct X as (T & _). rewrite T in Et. discriminate.
@@ -279,7 +284,7 @@ Section Group.
         pose proof (plain_self vl Hpv) as Hv.
         unfold group_pair_ok in Hok. rewrite (node_value_noalias kl (Hna (kl, vl) Hin)), Ek in Hok.
         destruct Hok as [(E & _)|[([E|E] & _)|[(E & _)|[(_ & T & Hval & Hbad)|(E & _)]]]]; try discriminate E.
-        pose proof (plain_map_tag vl Hv T) as Kv.
+        pose proof (plain_map_tag vl Hv T) as Kv. rewrite (deref_plain vl (proj1 Hv)) in Hval, Hbad.
         assert (Hne : forall k v, In (k, v) (mapping_nodes vl) -> n_value k <> "").
         { intros k v Hkv E. destruct (bad_group_label_none _ Hbad k v Hkv) as (L1 & _). rewrite E in L1. congruence. }
         assert (Ht : is_tag (n_tag vl) mapTag = true) by (rewrite T; reflexivity).
@@ -430,7 +435,7 @@ Section Doc.
   Qed.
 
   Notation blocks := (strict_blocks expr_ok dur_ok tmpl_pint).
-  Notation PS := (parse_strict plines metric_ok lname_ok lvalue_ok dur_ok int_ok false).
+  Notation PS := (parse_strict plines metric_ok lname_ok lvalue_ok dur_ok int_ok null_ok false).
   Notation accepts := (prom_accepts str_ok int_ok null_ok expr_ok dur_ok dur_zero metric_ok lname_ok lvalue_ok tmpl_prom).
 
   Lemma blocks_false_inv f :
@@ -467,13 +472,15 @@ Section Doc.
     fold (pint_group_ok dur_ok expr_ok tmpl_pint) in Hgs.
     unfold parse_strict in *. cbn [parse_strict_loop] in *.
     set (L := firstn nl lines) in *.
+    destruct (strict_prepass null_ok d) as [e0|] eqn:PP; [discriminate Hfe|].
     destruct (parse_groups plines metric_ok lname_ok lvalue_ok dur_ok int_ok false L d) as [e|gs] eqn:PGs; [discriminate Hfe|].
     cbn [app f_groups] in Hgs. clear Hfe.
     unfold parse_groups in PGs.
     assert (Hu : unpack_nodes d = [root]).
     { unfold unpack_nodes. rewrite Cd. apply unpack_loop_plain. intros c [<-|[]]. exact (plain_not_merge root Hroot). }
     rewrite Hu in PGs. cbn [groups_of_roots] in PGs.
-    destruct (negb (is_tag (n_tag root) mapTag)) eqn:Et; [discriminate PGs|]. apply negb_false_iff in Et.
+    destruct (negb (is_tag (n_tag root) mapTag) || kind_mismatch root KMapping)%bool eqn:Et; [discriminate PGs|].
+    apply orb_false_iff in Et. destruct Et as [Et _]. apply negb_false_iff in Et.
     destruct (groups_of_entries plines metric_ok lname_ok lvalue_ok dur_ok int_ok false L (mapping_nodes root) false [] [])
       as [e|[n1 a1]] eqn:GE; [discriminate PGs|]. inversion PGs; subst a1. clear PGs.
     unfold prom_accepts, load_doc. rewrite Cd.
@@ -490,7 +497,8 @@ Section Doc.
       + cbn [groups_of_entries] in GE.
         destruct (negb (n_tag k =? strTag)) eqn:E1; [discriminate GE|].
         destruct (negb (node_value k =? "groups")) eqn:E2; [discriminate GE|]. apply negb_false_iff, String.eqb_eq in E2.
-        destruct (negb (is_tag (n_tag v) seqTag)) eqn:E3; [discriminate GE|]. apply negb_false_iff in E3.
+        destruct (negb (is_tag (n_tag v) seqTag) || kind_mismatch v KSequence)%bool eqn:E3; [discriminate GE|].
+        apply orb_false_iff in E3. destruct E3 as [E3 _]. apply negb_false_iff in E3.
         destruct (groups_of_seq plines metric_ok lname_ok lvalue_ok dur_ok int_ok false L (unpack_nodes v) [] []) as [e|[n2 a2]] eqn:GS; [discriminate GE|].
         pose proof (groups_of_entries_true _ _ _ _ _ _ _ _ _ _ _ _ GE) as Hrest. subst rest.
         cbn [groups_of_entries] in GE. inversion GE; subst n1 gs. clear GE.
@@ -534,10 +542,13 @@ Section Doc.
     - reflexivity.
     - destruct yerr as [e|].
       + exfalso. destruct (blocks_false_inv _ Hb) as [Hfe _]. unfold parse_strict in Hfe. cbn [parse_strict_loop] in Hfe.
+        destruct (strict_prepass null_ok d); [discriminate Hfe|].
         destruct (parse_groups _ _ _ _ _ _ _ _ d); cbn in Hfe; discriminate.
       + exact (doc_sound d nl (Hg d nl eq_refl) Hb).
     - exfalso. destruct (blocks_false_inv _ Hb) as [Hfe _]. unfold parse_strict in Hfe. cbn [parse_strict_loop] in Hfe.
+      destruct (strict_prepass null_ok d); [discriminate Hfe|].
       destruct (parse_groups _ _ _ _ _ _ _ _ d); [discriminate Hfe|].
+      destruct (strict_prepass null_ok d2); [discriminate Hfe|].
       destruct (parse_groups _ _ _ _ _ _ _ _ d2); [discriminate Hfe|].
       revert Hfe. apply strict_loop_multi; [lia|]. cbn. discriminate.
   Qed.
